@@ -64,53 +64,73 @@ def customLines : HeaderOpt → List Str
       | some v => some (kv.1 ++ ": ".toList ++ v)
       | none => none)
 
+/-! `_get_handshake_headers`, block by block -/
+
+/-- `hostport` -/
+def hostport (host : Str) (port : Nat) : Str :=
+  if port = 80 ∨ port = 443 then packHostname host
+  else packHostname host ++ ':' :: natRepr port
+
+/-- `Host:` line: `options.get("host")` if truthy, else `hostport` -/
+def hostLine (host : Str) (port : Nat) (o : Opts) : Str :=
+  match truthy o.host with
+  | some h => "Host: ".toList ++ h
+  | none => "Host: ".toList ++ hostport host port
+
+/-- the `Origin` block (`scheme` = the URL text before its first ":") -/
+def originSeg (scheme host : Str) (port : Nat) (o : Opts) : List Str :=
+  if o.suppressOrigin then []
+  else match o.origin with
+    | some og => ["Origin: ".toList ++ og]
+    | none =>
+      if scheme = "wss".toList then ["Origin: https://".toList ++ hostport host port]
+      else ["Origin: http://".toList ++ hostport host port]
+
+/-- the `Sec-WebSocket-Key` block: the line (unless given manually) and the key in force -/
+def keySeg (o : Opts) (rand : Bytes) : Except HExn (List Str × Str) :=
+  let key0 := createKey rand
+  if !headerTruthy o.header || !headerHas o.header "Sec-WebSocket-Key".toList then
+    .ok (["Sec-WebSocket-Key: ".toList ++ key0], key0)
+  else match headerIndex o.header "Sec-WebSocket-Key".toList with
+    | .ok k => .ok ([], k)
+    | .error e => .error e
+
+def versionSeg (o : Opts) : List Str :=
+  if !headerTruthy o.header || !headerHas o.header "Sec-WebSocket-Version".toList then
+    ["Sec-WebSocket-Version: ".toList ++ natRepr Gen.wsVersion]
+  else []
+
+/-- the `connection` option (F15: the pinned code appended the bare value) -/
+def connLine (o : Opts) : Str :=
+  match truthy o.connection with
+  | none => "Connection: Upgrade".toList
+  | some c => if Gen.h2ConnectionNamed then "Connection: ".toList ++ c else c
+
+def subSeg (o : Opts) : List Str :=
+  if o.subprotocols.isEmpty then []
+  else ["Sec-WebSocket-Protocol: ".toList ++ join [','] o.subprotocols]
+
+def customSeg (o : Opts) : List Str := if headerTruthy o.header then customLines o.header else []
+
+/-- `"; ".join(filter(None, [server_cookie, client_cookie]))` -/
+def cookieSeg (o : Opts) (jar : Str) : List Str :=
+  let cookies := [jar, o.cookie.getD []].filter (fun s => !s.isEmpty)
+  let cookie := join "; ".toList cookies
+  if cookie.isEmpty then [] else ["Cookie: ".toList ++ cookie]
+
 /-- `_get_handshake_headers(resource, url, host, port, options)` with the random draw and the
     jar's answer made explicit. Returns the lines and the key the response is checked against. -/
 def getHandshakeHeaders (resource url host : Str) (port : Nat) (o : Opts) (rand : Bytes)
     (jar : Str) : Except HExn (List Str × Str) :=
   let head := ["GET ".toList ++ resource ++ " HTTP/1.1".toList, "Upgrade: websocket".toList]
-  let hostport :=
-    if port = 80 ∨ port = 443 then packHostname host
-    else packHostname host ++ ':' :: natRepr port
-  let hostLine := match truthy o.host with
-    | some h => "Host: ".toList ++ h
-    | none => "Host: ".toList ++ hostport
   -- scheme, url = url.split(":", 1)
   match splitN ':' 1 url with
   | [scheme, _] =>
-    let originSeg :=
-      if o.suppressOrigin then []
-      else match o.origin with
-        | some og => ["Origin: ".toList ++ og]
-        | none =>
-          if scheme = "wss".toList then ["Origin: https://".toList ++ hostport]
-          else ["Origin: http://".toList ++ hostport]
-    let key0 := createKey rand
-    let keyRes : Except HExn (List Str × Str) :=
-      if !headerTruthy o.header || !headerHas o.header "Sec-WebSocket-Key".toList then
-        .ok (["Sec-WebSocket-Key: ".toList ++ key0], key0)
-      else match headerIndex o.header "Sec-WebSocket-Key".toList with
-        | .ok k => .ok ([], k)
-        | .error e => .error e
-    match keyRes with
+    match keySeg o rand with
     | .error e => .error e
-    | .ok (keySeg, key) =>
-      let versionSeg :=
-        if !headerTruthy o.header || !headerHas o.header "Sec-WebSocket-Version".toList then
-          ["Sec-WebSocket-Version: ".toList ++ natRepr Gen.wsVersion]
-        else []
-      let connLine := match truthy o.connection with
-        | none => "Connection: Upgrade".toList
-        | some c => if Gen.h2ConnectionNamed then "Connection: ".toList ++ c else c
-      let subSeg :=
-        if o.subprotocols.isEmpty then []
-        else ["Sec-WebSocket-Protocol: ".toList ++ join [','] o.subprotocols]
-      let customSeg := if headerTruthy o.header then customLines o.header else []
-      let cookies := [jar, o.cookie.getD []].filter (fun s => !s.isEmpty)
-      let cookie := join "; ".toList cookies
-      let cookieSeg := if cookie.isEmpty then [] else ["Cookie: ".toList ++ cookie]
-      .ok (head ++ [hostLine] ++ originSeg ++ keySeg ++ versionSeg ++ [connLine] ++ subSeg
-            ++ customSeg ++ cookieSeg ++ [[], []], key)
+    | .ok (keyLines, key) =>
+      .ok (head ++ [hostLine host port o] ++ originSeg scheme host port o ++ keyLines ++ versionSeg o
+            ++ [connLine o] ++ subSeg o ++ customSeg o ++ cookieSeg o jar ++ [[], []], key)
   | _ => .error .valueError
 
 /-- the request text: `"\r\n".join(headers)` -/
